@@ -142,3 +142,37 @@ def cond_dict(path, keyfn):
             else:
                 d[k] = v
     return d
+
+
+def path_value(fn, path, local=0):
+    """Value of `local` at the end of `path` by constant propagation along the path's blocks
+    (constants, copies of locals and boolean negation); returns a canonical string."""
+    env = {}
+
+    def op_val(op):
+        if op["k"] == "const":
+            from .facts import const_repr
+            return const_repr(op)
+        if op["k"] in ("copy", "move") and not op["pl"]["p"]:
+            l = op["pl"]["l"]
+            if l in env:
+                return env[l]
+        return fn.expr_operand(op, 2)
+
+    for b in path.blocks:
+        for s in fn.blocks[b]["s"]:
+            if s["k"] != "assign" or s["pl"]["p"]:
+                continue
+            rv = s["rv"]
+            l = s["pl"]["l"]
+            if rv["k"] == "use":
+                env[l] = op_val(rv["op"])
+            elif rv["k"] == "unop" and rv["op"] == "Not":
+                v = op_val(rv["a"])
+                env[l] = {"true": "false", "false": "true"}.get(v, f"Not({v})")
+            else:
+                env[l] = fn.expr_rvalue(rv, 2)
+        t = fn.blocks[b]["t"]
+        if t["k"] == "call" and not t["dest"]["p"]:
+            env[t["dest"]["l"]] = fn.expr_call(t, 2)
+    return env.get(local)
